@@ -65,6 +65,34 @@ def _ns():
     return Mod(pns, PROX), thresh, util
 
 
+def _backend_with(xp):
+    class Dev:
+        def __enter__(self):
+            return self
+
+        def __exit__(self, *a):
+            return False
+    Dev.xp = xp
+    dev = Dev()
+    return type("B", (), {"get_array_module": staticmethod(lambda x: xp), "get_device": staticmethod(lambda x: dev),
+                          "to_device": staticmethod(lambda x, d=None: x), "cpu_device": dev})()
+
+
+def job_soft_lemma(timeout_ms):
+    """pure arithmetic, code-independent: the closed form p|y| = y max(|y|-l, 0) (p = 0 if y = 0) satisfies the optimality
+    condition of  min 0.5|x-y|^2 + l|x| ; proved once, by cases"""
+    a, b, c, d, s_, r_, l = z3.Reals("yr yi pr pi ay ap l")
+    mm = z3.If(s_ - l >= 0, s_ - l, 0)
+    H = [l >= 0, s_ >= 0, s_ * s_ == a * a + b * b, r_ >= 0, r_ * r_ == c * c + d * d,
+         c * s_ == a * mm, d * s_ == b * mm, z3.Implies(s_ == 0, z3.And(c == 0, d == 0))]
+    G = z3.Or(z3.And(c == 0, d == 0, s_ <= l), z3.And(r_ > 0, (a - c) * r_ == l * c, (b - d) * r_ == l * d))
+    obs = [Obligation("C11/lemma/soft-closed-form=>optimality/case:y==0", H + [s_ == 0], G, dict(static=False)),
+           Obligation("C11/lemma/soft-closed-form=>optimality/case:0<|y|<=l", H + [s_ > 0, s_ <= l], G, {}),
+           Obligation("C11/lemma/soft-closed-form=>optimality/case:|y|>l:|p|==|y|-l", H + [s_ > l], r_ == s_ - l, {}),
+           Obligation("C11/lemma/soft-closed-form=>optimality/case:|y|>l", H + [s_ > l, r_ == s_ - l], G, {})]
+    return check_obligations(obs, max(timeout_ms, 60000))
+
+
 def _absw(tag, v):
     """|v| as a fresh non-negative real with its defining constraint"""
     a = z3.Real("abs!" + tag)
@@ -72,12 +100,25 @@ def _absw(tag, v):
 
 
 def _soft_opt(p, y, lam, tag):
-    """p = argmin 0.5|x-y|^2 + lam|x|  <=>  (p = 0 and |y| <= lam) or (p != 0 and (y - p)|p| = lam p)"""
+    """p = argmin 0.5|x-y|^2 + lam|x|  <=>  (p = 0 and |y| <= lam) or (p != 0 and (y - p)|p| = lam p).
+    Proved through a lemma chain (each its own obligation):
+      closed-form (code-dependent):  p*|y| = y*max(|y| - lam, 0), and p = 0 when y = 0
+      lemma (pure arithmetic, code-independent): the closed form satisfies the optimality condition
+    returns list of (name, hyps, goal)"""
     ay, hy = _absw(tag + "y", y)
     ap, hp = _absw(tag + "p", p)
-    goal = z3.Or(z3.And(p.re == 0, p.im == 0, ay <= lam),
-                 z3.And(ap > 0, (y.re - p.re) * ap == lam * p.re, (y.im - p.im) * ap == lam * p.im))
-    return hy + hp, goal
+    m = z3.If(ay - lam >= 0, ay - lam, 0)
+    closed = z3.And(p.re * ay == y.re * m, p.im * ay == y.im * m, z3.Implies(ay == 0, z3.And(p.re == 0, p.im == 0)))
+    opt = z3.Or(z3.And(p.re == 0, p.im == 0, ay <= lam),
+                z3.And(ap > 0, (y.re - p.re) * ap == lam * p.re, (y.im - p.im) * ap == lam * p.im))
+    # the lemma over plain reals (no array symbols): a, b = y; c, d = p; s = |y|; r = |p|; l = threshold
+    a, b, c, d, s_, r_, l = z3.Reals("yr yi pr pi ay ap l")
+    mm = z3.If(s_ - l >= 0, s_ - l, 0)
+    lem_h = [l >= 0, s_ >= 0, s_ * s_ == a * a + b * b, r_ >= 0, r_ * r_ == c * c + d * d,
+             c * s_ == a * mm, d * s_ == b * mm, z3.Implies(s_ == 0, z3.And(c == 0, d == 0))]
+    lem_g = z3.Or(z3.And(c == 0, d == 0, s_ <= l), z3.And(r_ > 0, (a - c) * r_ == l * c, (b - d) * r_ == l * d))
+    return [("soft:closed-form:p|y|==y*max(|y|-t,0)", hy, closed),
+            ("minimiser-of-0.5|x-y|^2+t|x|", hy + hp + [closed, z3.Implies(z3.And(closed, *(hy + hp)), opt)], opt)]
 
 
 def _shape_ob(out, shape):
@@ -140,8 +181,7 @@ def job_soft(rank, via, timeout_ms):
         th = lam.t if via == "thresh" else lam.t * alpha.t
         if len(out.shape) != len(shape):
             return [_shape_ob(out, shape)]
-        hy, goal = _soft_opt(out.elem(tuple(k)).value(), y.elem(tuple(k)).value(), th, "s")
-        return [_shape_ob(out, shape), ("minimiser-of-0.5|x-y|^2+t|x|", hy, goal)]
+        return [_shape_ob(out, shape)] + _soft_opt(out.elem(tuple(k)).value(), y.elem(tuple(k)).value(), th, "s")
     return _run("soft_thresh" if via == "thresh" else "L1Reg", rank, build, post, rec, timeout_ms)
 
 
@@ -247,8 +287,8 @@ def job_l2proj(rank, axes, with_bias, timeout_ms):
                 sums.append((r, axis, keepdims))
                 return r
         xp = XP()
-        thresh._ns["backend"] = type("B", (), {"get_array_module": staticmethod(lambda x: xp), "get_device": staticmethod(lambda x: snp.CPU),
-                                              "to_device": staticmethod(lambda x, d=None: x)})()
+        thresh._ns["backend"] = _backend_with(xp)
+        thresh._ns["np"] = xp
         del sums[:]
         out = P.L2Proj(shape, eps, y=b, axes=axes)(alpha, y)
         return out, list(sums)
@@ -474,8 +514,7 @@ def job_l1proj(rank, timeout_ms):
                     return i
             return _R()
     xp = XP()
-    thresh._ns["backend"] = type("B", (), {"get_array_module": staticmethod(lambda x: xp), "get_device": staticmethod(lambda x: snp.CPU),
-                                          "to_device": staticmethod(lambda x, d=None: x)})()
+    thresh._ns["backend"] = _backend_with(xp)
     thresh._ns["np"] = xp
 
     def mk():
@@ -511,9 +550,33 @@ def job_psd(timeout_ms):
     return check_obligations(obs, timeout_ms)
 
 
+def probes(tier, seed):
+    res = native("probe.py", dict(prop="C11", tier=tier, seed=seed), timeout=1500)
+    if isinstance(res, dict) and res.get("error"):
+        return [dict(name="native-probe", error=res["error"], cases=0)]
+    return res
+
+
+def replay_request(res):
+    n = res["name"]
+    m = res.get("model") or {}
+    if "psd_proj" in n:
+        return dict(fn="prox.check", args=dict(kind="PsdProj", shape=[4, 4], complex=False, seed=0))
+    kinds = {"L1Proj": "L1Proj", "L1Reg": "L1Reg", "soft_thresh": "L1Reg", "L2Reg": "L2Reg", "L2Proj": "L2Proj", "LInfProj": "LInfProj",
+             "linf_proj": "LInfProj", "BoxConstraint": "Box", "Conj": "Conj(L1)", "Stack": "Stack", "UnitaryTransform": "Unitary(FFT,L1)"}
+    for key, kind in kinds.items():
+        if "/%s/" % key in n:
+            rank = 2 if "rank2" in n else 1
+            shape = [max(1, min(6, model_int(m, "n%d" % d, 3 + d))) for d in range(rank)]
+            cases = [dict(fn="prox.check", args=dict(kind=kind, shape=shape, complex=c, special=sp_, bias=("bias=True" in n or "y=True" in n), alpha=0.7, seed=0))
+                     for c in (True, False) for sp_ in (None, "feasible", "on-threshold")]
+            return dict(fn="multi", args=dict(cases=cases))
+    return None
+
+
 def jobs(tier):
     M = "contracts.C11"
-    js = [Job(M, "job_psd")]
+    js = [Job(M, "job_psd"), Job(M, "job_soft_lemma")]
     for rank in (1, 2):
         js += [Job(M, "job_soft", rank=rank, via="thresh"), Job(M, "job_soft", rank=rank, via="prox"), Job(M, "job_hard", rank=rank),
                Job(M, "job_box", rank=rank), Job(M, "job_conj", rank=rank), Job(M, "job_unitary", rank=rank), Job(M, "job_noop_call", rank=rank),
